@@ -141,6 +141,29 @@ def systematic() -> list[list[list]]:
     return out
 
 
+def stress_expr(rng: random.Random) -> list[list]:
+    """Sizes small random trees never reach: long operator chains, deep parentheses, wide numbers, long unary runs."""
+    kind = rng.choice(["chain", "deep_parens", "wide", "unary_run", "mixed_chain"])
+    if kind == "chain":
+        toks = [num(rng.randrange(1, 9))]
+        for _ in range(rng.choice([33, 65, 129, 257])):
+            toks += [OP(rng.choice(["+", "-", "+", "*"])), num(rng.randrange(1, 5))]
+        return toks
+    if kind == "mixed_chain":
+        toks = [num(rng.randrange(1, 200), rng.choice("dxb"))]
+        for _ in range(rng.choice([17, 40, 90])):
+            op = rng.choice(BINOPS)
+            toks += [OP(op), num(rng.randrange(0, 4) if op in ("<<", ">>") else rng.randrange(1, 300), rng.choice("dx"))]
+        return toks
+    if kind == "deep_parens":
+        d = rng.choice([17, 33, 65, 120])
+        return [LP] * d + [num(5), OP("+"), num(3)] + [x for _ in range(d) for x in (RP, OP(rng.choice(["+", "*", "-"])), num(rng.randrange(1, 4)))][:-2] + []
+    if kind == "wide":
+        v = rng.choice([(1 << 40) + 5, (1 << 64) - 1, 10 ** 30, (1 << 100)])
+        return [num(v, rng.choice("dxb"), rng.random() < 0.5), OP(rng.choice([">>", "&", "-", "*"])), num(rng.choice([3, 0xFF, 1 << 33]))]
+    return [UN("-")] * rng.choice([2, 7, 40]) + [num(rng.randrange(1, 100))]
+
+
 def random_tree(rng: random.Random, depth: int) -> list[list]:
     c = rng.random()
     if depth <= 0 or c < 0.25:
@@ -352,8 +375,8 @@ def run_shard(shard: dict) -> Res:
     else:
         rng = random.Random(shard["seed"])
         for i in range(shard["n"]):
-            tokens = random_tree(rng, shard["depth"])
-            if len(tokens) > 120:
+            tokens = stress_expr(rng) if i % 25 == 24 else random_tree(rng, shard["depth"])
+            if len(tokens) > 1200:
                 continue
             check_expr(res, tokens, rng.choice(SPACINGS), rng)
             if i < 2:
